@@ -534,7 +534,20 @@ struct World {
             destroy_slot(A);
             const SlotOps &o = ops_of(B.stack);
             void *mem = raw_alloc(o);
-            int rcode = guarded(op, [&] { o.copy_construct(mem, B.obj); }, what, fired);
+            bool nc = (op.vseed & 1) != 0; // half of the copies are made from a non-const lvalue
+            int rcode = guarded(
+                op,
+                [&] {
+                    if (nc)
+                        o.copy_construct_nc(mem, B.obj);
+                    else
+                        o.copy_construct(mem, B.obj);
+                },
+                what,
+                fired
+            );
+            if (nc)
+                cnt.inc("probe.copy_from_non_const_lvalue");
             executed = true;
             src_slot = b;
             if (husk)
@@ -593,7 +606,18 @@ struct World {
                 cnt.inc("probe.assign_into_moved_from");
             if (A.state == S_DEFAULT)
                 cnt.inc("probe.assign_into_default");
-            int rcode = guarded(op, [&] { o.copy_assign(A.obj, B.obj); }, what, fired);
+            bool nc = (op.vseed & 1) != 0;
+            int rcode = guarded(
+                op,
+                [&] {
+                    if (nc)
+                        o.copy_assign_nc(A.obj, B.obj);
+                    else
+                        o.copy_assign(A.obj, B.obj);
+                },
+                what,
+                fired
+            );
             executed = true;
             src_slot = b;
             if (rcode) {
@@ -658,6 +682,8 @@ struct World {
                 [&] {
                     if (mv)
                         o.conv[src_stack].move(mem, B.obj);
+                    else if ((op.vseed & 1) && o.conv[src_stack].copy_nc)
+                        o.conv[src_stack].copy_nc(mem, B.obj); // source is a non-const lvalue
                     else
                         o.conv[src_stack].copy(mem, B.obj);
                 },
@@ -1264,6 +1290,7 @@ Plan gen_sweep_plan(const std::string &property, const std::string &profile, uin
         cv.a = 1;
         cv.b = 0;
         cv.stack = it->dst;
+        cv.vseed = rk.next() & 0xffffffffffffull; // also decides const / non-const lvalue source
         p.ops.push_back(cv);
         // and back, when the family has the reverse conversion
         for (int k = 0; k < g_nconv; ++k)
@@ -1273,6 +1300,7 @@ Plan gen_sweep_plan(const std::string &property, const std::string &profile, uin
                 back.a = 2;
                 back.b = 1;
                 back.stack = it->src;
+                back.vseed = rk.next() & 0xffffffffffffull;
                 p.ops.push_back(back);
                 break;
             }
